@@ -495,6 +495,12 @@ pub fn gen_case(prop: &str, rng: &mut Rng) -> Case {
                     let mut ops = Vec::new();
                     for _ in 0..k {
                         let n = sh.cur_len();
+                        if sh.sources > 0 && w_lim > 0 && rng.chance(1, 3) {
+                            // the thread owning a limit observable runs too
+                            let i = rng.below(sh.sources);
+                            ops.push(if rng.chance(1, 5) { Step::LimSetIfNotEq(i, lim_value(&sh, rng)) } else { Step::LimSet(i, lim_value(&sh, rng)) });
+                            continue;
+                        }
                         ops.push(match rng.below(10) {
                             0..=5 => {
                                 sh.set_len(n + 1);
